@@ -44,7 +44,9 @@ RULE = ('melt/recast: all rectangular tables, w in {2,3} x every permutation of 
         'and by str(name) where unambiguous), transpose/transpose^2 and flatten (w<=3), the two untouched fields '
         'of unpack/unpackdict/capture/split/splitdown (<= 1 row), recast with int / float+bool variable values, '
         'and melt(pivot(t)) / recast(melt(pivot(t))) (pivot header = f2 values); header and cells compared '
-        'type-faithfully. REGEX FLAGS: split / splitdown / capture with flags in {IGNORECASE, VERBOSE, both, 0} '
+        'type-faithfully. TABLE WIDTH for unpack/unpackdict/capture/split/splitdown: 1, 2, 3 and 4 fields with the '
+        'expanded field in every position, the other cells multi-character text / tuple / int / None in every '
+        'combination (<= 2 rows for width <= 2, <= 1 row for width 4), full argument grid. REGEX FLAGS: split / splitdown / capture with flags in {IGNORECASE, VERBOSE, both, 0} '
         'and patterns whose separators / groups only match under the flag, flags by keyword and positionally, '
         'function and method (etl.wrap) syntax, x maxsplit x include_original x fill, on every table <= 2 rows '
         'over cells with lower-/upper-case and spaced separators; oracle re.compile(pattern, flags). '
@@ -817,6 +819,9 @@ def items(tier, seed):
     out.append(('names-transpose',))
     for fi in range(3):
         out.append(('regex-flags', fi))
+    for width in (1, 2, 4):
+        for fam in ('unpack', 'unpackdict', 'capture', 'split'):
+            out.append((fam + '-width', width))
     for fi in range(3):
         for fam in ('unpack', 'unpackdict', 'capture', 'split'):
             out.append((fam + '-names', fi))
@@ -986,6 +991,37 @@ def run_item(item, acc):
                     if n <= 1:
                         _do(acc, {'form': 'unflatten_table', 'table': t, 'rect': True}, 'flatten-fieldnames')
         return
+    if fam.endswith('-width'):
+        # table WIDTH axis: 1, 2 and 4 fields (3 is the main family), expanded field in every position,
+        # the other cells multi-character text / tuple / int / None in every combination
+        fam = fam[:-6]
+        width = item[1]
+        cellopts = {
+            'unpack': [lambda i: ['r%du0' % i, 'r%du1' % i], lambda i: ('r%du0' % i,)],
+            'unpackdict': [lambda i: {'p': 'r%dp' % i}, lambda i: {'q': 'r%dq' % i, 'p': None}],
+            'capture': [lambda i: 'A1', lambda i: '--'],
+            'split': [lambda i: 'p,q', lambda i: 'p'],
+        }[fam]
+        counter = {'unpack': 'unpack', 'unpackdict': 'unpackdict', 'capture': 'capture',
+                   'split': 'split/splitdown'}[fam] + '-width'
+        kinds = ('text', 'tuple', 'int', 'none')
+
+        def other(kind, i, j):
+            return {'text': tag(i, j), 'tuple': ('r%d' % i, 'c%d' % j), 'int': 10 * (i + 1) + j, 'none': None}[kind]
+        others = ['o%d' % j for j in range(width - 1)]
+        for fi in range(width):
+            h = list(others)
+            h.insert(fi, 'u')
+            rowopts = list(itertools.product(range(len(cellopts)), itertools.product(kinds, repeat=width - 1)))
+            for n in range(0, (2 if width <= 2 else 1) + 1):
+                for combo in itertools.product(rowopts, repeat=n):
+                    rows = [tuple(h)]
+                    for i, (co, ks) in enumerate(combo):
+                        row = [other(k, i, j) for j, k in enumerate(ks)]
+                        row.insert(fi, cellopts[co](i))
+                        rows.append(tuple(row))
+                    _do(acc, {'form': fam, 'table': rows, 'fi': fi}, counter)
+        return
     fi = item[1]
     hdr = ['id', 'z']
     named = fam.endswith('-names')
@@ -1110,7 +1146,8 @@ def vacuity(cov, tier):
     for k in ('melt/recast', 'recast', 'transpose', 'flatten/unflatten', 'flatten-ragged', 'unflatten', 'pivot',
               'unpack', 'unpackdict', 'capture', 'split/splitdown', 'dicts/columns', 'melt-fieldnames',
               'transpose-fieldnames', 'unpack-fieldnames', 'unpackdict-fieldnames', 'capture-fieldnames',
-              'split/splitdown-fieldnames', 'regex-flags'):
+              'split/splitdown-fieldnames', 'regex-flags', 'unpack-width', 'unpackdict-width', 'capture-width',
+              'split/splitdown-width'):
         if not c.get('op:' + k):
             probs.append('no evaluation of ' + k)
         elif not c.get('nontrivial:' + k):
